@@ -525,3 +525,39 @@ Theorem C01_single_clusters_examples :
   /\ single_clusters [[112]; [45; 120; 61]] = false.
 Proof. exact single_clusters_examples. Qed.
 Print Assumptions C01_single_clusters_examples.
+
+(** the panic-shaped sites of the files reached while an error is constructed (usage string: output/usage.rs; help text of a
+    DisplayHelp error: output/help_template.rs, builder/styled_str.rs), regenerated from the source on every run.  Outside the
+    parser model -- C12 models them and proves them dead for its class (C12_usage_total, C12_padding_safe, C12_render_total);
+    for C01: differential only (every error is rendered under catch_unwind on every case).  Pinned so that a new site on that
+    path fails this gate until it is acknowledged here. *)
+Theorem C01_render_path_sites :
+  (Gen.ParseSites.render_path_sites =
+     [
+       ("output/usage.rs", "Usage::write_args", "debug_assert!", 0);
+       ("output/usage.rs", "Usage::write_args", "index", 0);
+       ("output/usage.rs", "Usage::write_args", "debug_assert!", 1);
+       ("output/usage.rs", "Usage::write_args", "unwrap", 0);
+       ("output/usage.rs", "Usage::write_args", "index", 1);
+       ("output/usage.rs", "Usage::write_args", "index", 2);
+       ("output/usage.rs", "Usage::write_args", "unwrap", 1);
+       ("output/usage.rs", "Usage::write_args", "index", 3);
+       ("output/usage.rs", "Usage::write_args", "index", 4);
+       ("output/usage.rs", "Usage::write_args", "index", 5);
+       ("output/usage.rs", "Usage::get_required_usage_from", "debug_assert!", 0);
+       ("output/usage.rs", "Usage::get_required_usage_from", "index", 0);
+       ("output/usage.rs", "Usage::get_required_usage_from", "debug_assert!", 1);
+       ("output/help_template.rs", "HelpTemplate::align_to_about", "sub", 0);
+       ("output/help_template.rs", "HelpTemplate::align_to_about", "sub", 1);
+       ("output/help_template.rs", "HelpTemplate::help", "expect", 0);
+       ("output/help_template.rs", "HelpTemplate::help", "sub", 0);
+       ("output/help_template.rs", "HelpTemplate::help", "sub", 1);
+       ("output/help_template.rs", "HelpTemplate::help", "sub", 2);
+       ("output/help_template.rs", "HelpTemplate::arg_next_line_help", "sub", 0);
+       ("output/help_template.rs", "HelpTemplate::subcommand_next_line_help", "sub", 0);
+       ("output/help_template.rs", "HelpTemplate::subcmd", "sub", 0);
+       ("builder/styled_str.rs", "StyledStr::wrap", "sub", 0);
+       ("builder/styled_str.rs", "StyledStr::wrap", "index", 0);
+       ("builder/styled_str.rs", "StyledStr::wrap", "index", 1) ])%string.
+Proof. exact render_path_sites_listed. Qed.
+Print Assumptions C01_render_path_sites.
